@@ -305,4 +305,33 @@ theorem spec_invoke_target {f : Callee} {tid : Nat} {self : Option Cat} (ht : Sp
   | memfn t o => simp [Spec.target?] at ht; obtain ⟨rfl, rfl⟩ := ht; rfl
   | memdata o v => simp [Spec.target?] at ht
 
+/-! ## reference_wrapper / function_ref objects: forward execution = backward resolution -/
+
+/-- backward resolution with given initial pointers -/
+def desFrom (s0 : Nat → Option Nat) : List RefOp → Nat → Option Nat
+  | [], w => s0 w
+  | .bind w' tid :: h, w => if w = w' then some tid else desFrom s0 h w
+  | .copy w' v :: h, w => if w = w' then desFrom s0 h v else desFrom s0 h w
+  | .assign w' v :: h, w => if w = w' then desFrom s0 h v else desFrom s0 h w
+
+theorem desFrom_none : ∀ (h : List RefOp) (w : Nat), Spec.designatesRev h w = desFrom (fun _ => none) h w
+  | [], _ => rfl
+  | .bind w' tid :: h, w => by simp [Spec.designatesRev, desFrom, desFrom_none h]
+  | .copy w' v :: h, w => by simp [Spec.designatesRev, desFrom, desFrom_none h]
+  | .assign w' v :: h, w => by simp [Spec.designatesRev, desFrom, desFrom_none h]
+
+/-- the oldest operation of a history acts on the initial pointers -/
+theorem desFrom_snoc (s0 : Nat → Option Nat) (op : RefOp) :
+    ∀ (h : List RefOp) (w : Nat), desFrom s0 (h ++ [op]) w = desFrom (refStep s0 op) h w
+  | [], w => by cases op <;> simp [desFrom, refStep]
+  | .bind w' tid :: h, w => by simp [desFrom, desFrom_snoc s0 op h]
+  | .copy w' v :: h, w => by simp [desFrom, desFrom_snoc s0 op h]
+  | .assign w' v :: h, w => by simp [desFrom, desFrom_snoc s0 op h]
+
+theorem foldl_desFrom : ∀ (ops : List RefOp) (s0 : Nat → Option Nat) (w : Nat),
+    ops.foldl refStep s0 w = desFrom s0 ops.reverse w
+  | [], _, _ => rfl
+  | op :: ops, s0, w => by
+    rw [List.foldl_cons, foldl_desFrom ops (refStep s0 op) w, List.reverse_cons, desFrom_snoc]
+
 end Tetl.C20
